@@ -67,8 +67,8 @@ PLAN = {
         vacuity=[("ctx4", ["FixEmptyToken"])],
     ),
     "C17": dict(
-        quick=[("lc5", dict(cap=1500)), ("lc_open", dict(cap=1000)), ("scope_open", dict(cap=3000))],
-        thorough=["lc5", "lc_open", "scope_open", ("lc6", dict(cap=20000, timeout=2400))],
+        quick=[("lc5", dict(cap=1500)), ("lc_open", dict(cap=1000)), ("scope_open", dict(cap=3000)), ("torec5", dict(cap=2000))],
+        thorough=["lc5", "lc_open", "scope_open", "torec5", ("lc6", dict(cap=20000, timeout=2400))],
     ),
 }
 PLAN["C18"] = dict(
